@@ -65,13 +65,13 @@ dbus_bool_t bus_transaction_send_from_driver (BusTransaction *t, DBusConnection 
 { PRE (t == TX && c == CONN && m == REPLY, "bus_transaction_send_from_driver: the reply, to the caller, in this transaction"); if (nondet_bool ()) return FALSE; G.sent++; return TRUE; }
 void dbus_message_unref (DBusMessage *m) { PRE (m == REPLY && G.new_reply == 1, "dbus_message_unref: the reply"); G.unref++; }
 #if VERIF_H == 5 || VERIF_H == 6
-static DBusList ql[3]; static const char q0[] = ":1.1", q1[] = ":1.2", q2[] = ":1.3"; static const char *const qn[3] = { q0, q1, q2 }; static DBusList one;
+static int g_list_built; static DBusList ql[3]; static const char q0[] = ":1.1", q1[] = ":1.2", q2[] = ":1.3"; static const char *const qn[3] = { q0, q1, q2 }; static DBusList one;
 dbus_bool_t bus_service_list_queued_owners (BusService *s, DBusList **ret)
 { int i; PRE (s == SVC && ret != NULL && *ret == NULL, "bus_service_list_queued_owners: the service just looked up"); G.listq++;
   if (nondet_bool ()) return FALSE;
   for (i = 0; i < 3; i++) if (i < in_k) { ql[i].data = (void *) qn[i]; ql[i].next = &ql[(i + 1) % in_k]; ql[i].prev = &ql[(i + in_k - 1) % in_k]; }
-  *ret = &ql[0]; return TRUE; }                                       /* enforced (B): C04.list_queued */
-dbus_bool_t _dbus_list_append (DBusList **list, void *data) { PRE (list != NULL && *list == NULL, "_dbus_list_append"); if (nondet_bool ()) return FALSE; one.data = data; one.next = one.prev = &one; *list = &one; return TRUE; }
+  *ret = &ql[0]; g_list_built = 1; return TRUE; }                                       /* enforced (B): C04.list_queued */
+dbus_bool_t _dbus_list_append (DBusList **list, void *data) { PRE (list != NULL && *list == NULL, "_dbus_list_append"); if (nondet_bool ()) return FALSE; one.data = data; one.next = one.prev = &one; *list = &one; g_list_built = 1; return TRUE; }
 DBusList *_dbus_list_get_first_link (DBusList **list) { return *list; }
 /* draining variants (not used by the unchanged code): each call hands out the name at that END of what is left of the listing */
 static int q_lo, q_hi = -1;
@@ -148,6 +148,7 @@ void harness (void)
   POST (IMP (ret && !in_exists, in_is_bus && G.nseq == 1 && verif_streq (G.seq[0], bus_name_lit)), "drv.queued the bus name is owned by the bus itself");
   POST (IMP (in_args_ok && !in_exists && !in_is_bus, !ret && err_is (&err, DBUS_ERROR_NAME_HAS_NO_OWNER)), "drv.queued no owner => NameHasNoOwner");
   POST (IMP (ret, G.open == 1 && G.close == 1), "drv.queued array opened and closed once");
+  POST (G.clear <= 1 && IMP (g_list_built, G.clear == 1), "drv.queued.release the temporary listing of owner names is released on every path, success included (a client must not be able to grow the bus)");
   if (ret && in_exists && in_k == 3) REACH ("three-owners"); if (ret && in_exists && in_k == 1) REACH ("one-owner"); if (ret && !in_exists) REACH ("bus-itself"); if (in_args_ok && !in_exists && !in_is_bus) REACH ("no-owner"); if (!ret && G.open == 1) REACH ("failed-inside-array");
 #else
   /* ListNames: "Returns a list of all currently-owned names on the bus" (specification); the bus itself owns org.freedesktop.DBus */
